@@ -1,5 +1,6 @@
 //! E1 `sysmc`: the real crate + dependency shims under `detsched` (see /verif/DESIGN.md §2.1).
 mod c01;
+mod c02s;
 mod c05;
 mod c07;
 mod c08;
@@ -90,6 +91,7 @@ fn main() {
     }
     let res = match args.subcheck.as_str() {
         "c01_race" => c01::run(&args),
+        "c02_seeds" => c02s::run(&args),
         "c07_window" => c07::run(&args),
         "c05_sched" => c05::run_sched(&args),
         "c05_conv" | "c06_precise" => c05::run(&args, &args.subcheck.clone()),
